@@ -1,6 +1,7 @@
 import PandoraModel.Properties.C11
 import PandoraModel.Properties.C11Kernels
 import PandoraModel.Properties.C11KernelsSteps
+import PandoraModel.Properties.C11KernelsGlue
 open Pandora.C11
 #print axioms armCoded_eq_armRef
 #print axioms crossSupport_eq_crossRef
@@ -42,3 +43,21 @@ open Pandora.C11
 #print axioms Pandora.C11KernelsSteps.cbcaStep2_generated_eq
 #print axioms Pandora.C11KernelsSteps.cbcaStep4_generated_eq
 #print axioms Pandora.C11KernelsSteps.cbcaSteps_generated_chain
+-- the numpy glue of cost_volume_aggregation / computes_cross_supports regenerated from the Python source
+-- (Generated/KernelsCbcaGlue.lean) is the hand model
+#print axioms Pandora.C11KernelsGlue.iRight_generated_eq
+#print axioms Pandora.C11KernelsGlue.leftCol_generated_eq
+#print axioms Pandora.C11KernelsGlue.facing_generated_eq
+#print axioms Pandora.C11KernelsGlue.facingCol_nat
+#print axioms Pandora.C11KernelsGlue.wired_generated
+#print axioms Pandora.C11KernelsGlue.aggInit_generated_eq
+#print axioms Pandora.C11KernelsGlue.aggPlane_generated_eq
+#print axioms Pandora.C11KernelsGlue.aggregate_generated
+#print axioms Pandora.C11KernelsGlue.aggregate_generated_spec
+#print axioms Pandora.C11KernelsGlue.leftCrop_generated_eq
+#print axioms Pandora.C11KernelsGlue.rightCrop_generated_eq
+#print axioms Pandora.C11KernelsGlue.cvCrop_generated_eq
+#print axioms Pandora.C11KernelsGlue.writeBack_generated_eq
+#print axioms Pandora.C11KernelsGlue.cropBox_model
+#print axioms Pandora.C11KernelsGlue.prepLeft_generated_eq
+#print axioms Pandora.C11KernelsGlue.prepRight_generated_eq
